@@ -1,12 +1,13 @@
 /-
 Properties/C19.lean — summaries encode the data faithfully.
   seqs_to_regex / seqs_to_consensus (align=False), the seqlogo count matrix, rankfrequency data,
-  labels_to_colors lookup, ClusterGridSplit.plot_matrix.
+  labels_to_colors lookup, ClusterGridSplit.plot_matrix, density_scatter (discrete).
 `order` is logomaker's column order (the residue letters occurring in the alignment); the regex keeps
 only residues in `order`, hence the hypothesis `hord` (every non-gap letter of the input is in `order`)
 wherever the INPUT has to be matched. Sequences are assumed aligned (equal length `L`).
 -/
 import Prs.Proofs.Summary
+import Prs.Proofs.Density
 namespace Prs
 
 /-- semantics of the matcher: a word matches iff it is obtained by choosing, for each item in order,
@@ -128,6 +129,26 @@ theorem C19_split_shape (lower upper : List (List Int)) (ind : List Nat) :
       ∀ row ∈ splitMatrix lower upper ind, row.length = ind.length :=
   splitMatrix_shape lower upper ind
 
+/-- density_scatter on discrete data draws each distinct point exactly once: the drawn points are a
+permutation of the duplicate-free list of the input points (so none is missing, none is drawn twice),
+whether or not the points are sorted by density -/
+theorem C19_density_each_point_once (sort : Bool) (pts : List (Rat × Rat)) :
+    ((densityScatterDiscrete sort pts).map (·.1)).Perm (dedup pts) ∧
+    ((densityScatterDiscrete sort pts).map (·.1)).Nodup ∧
+    ∀ p, p ∈ (densityScatterDiscrete sort pts).map (·.1) ↔ p ∈ pts :=
+  ⟨density_fst_perm sort pts, (density_fst_perm sort pts).nodup_iff.2 (nodup_dedup pts),
+   fun p => ((density_fst_perm sort pts).mem_iff).trans (mem_dedup p pts)⟩
+
+/-- and colours each by its multiplicity in the input (which is at least 1) -/
+theorem C19_density_multiplicity (sort : Bool) (pts : List (Rat × Rat)) (e : (Rat × Rat) × Nat)
+    (h : e ∈ densityScatterDiscrete sort pts) : e.2 = pts.count e.1 ∧ 1 ≤ e.2 := by
+  have := density_mem h
+  exact ⟨this.2, by rw [this.2]; exact List.count_pos_iff.2 this.1⟩
+
+/-- with `sort` the densest points come last (drawn on top) -/
+theorem C19_density_densest_last (pts : List (Rat × Rat)) :
+    (densityScatterDiscrete true pts).Pairwise (fun a b => a.2 ≤ b.2) := density_sorted pts
+
 /-! non-vacuity -/
 /-- three aligned sequences AC, A-, DC give `[AD]C?`: "A", "DC" match, "C", "ACC" do not -/
 example :
@@ -152,6 +173,10 @@ example : splitMatrix [[0, 1, 2], [1, 0, 3], [2, 3, 0]] [[0, 7, 8], [7, 0, 9], [
     [[0, 8, 9], [2, 0, 7], [3, 1, 0]] := by decide
 example : (((rankFrequency true [some 1, none, some 3]).map (·.1)).foldl (· + ·) 0) = 1 :=
   C19_rank_normalized _ (by show (0 : Rat) < 0 + 1 + 3; grind)
-
+/-- (1, 2) occurs twice among three points: whatever position it is drawn at, its colour value is 2 -/
+example : ∀ e ∈ densityScatterDiscrete true [(1, 2), (0, 5), (1, 2)], e.1 = (1, 2) → e.2 = 2 := by
+  intro e h he
+  rw [(C19_density_multiplicity _ _ e h).1, he]
+  decide +kernel
 
 end Prs
